@@ -229,10 +229,13 @@ NOT_APPLICABLE = {}
 # the value-level checks that carry the shared route layer (harness/routes.py FAMILY; DESIGN.md section 1.7)
 ROUTED = ['C04', 'C05', 'C06', 'C07', 'C08', 'C11', 'C12', 'C13', 'C14', 'C15', 'C16', 'C17', 'C18']
 ROUTE_TEXT = (' Route layer (DESIGN.md 1.7): every function and operator of the family is also evaluated with its operand values '
-              'arriving as literals, from the cell and range listeners, as results of custom functions, of nested evaluations and of '
-              'IF/CHOOSE, with each separator, with white space and line breaks, on a debug parser and twice on one parser; the record '
-              'must equal that of the plain call over variables (real code only) and is compared with the Lean evaluator model of the '
-              'routed formula (driver op evalf; the real-valued builtins enter it as Float host functions).')
+              'arriving as literals, from the cell, range and variable listeners, as results of custom functions, of nested evaluations and of '
+              'IF/CHOOSE, as tuples, as the same object twice, with each separator and an omitted slot, with white space and line breaks, on a '
+              'debug parser, twice on one parser, after an evaluation that did not complete, beside another parser that binds the same names; '
+              'the record must equal that of the plain call over variables (real code only; plus five definitional clauses where every route '
+              'computes alike) and is compared with the Lean evaluator model of the routed formula (driver op evalf; the real-valued '
+              'builtins enter it as Float host functions). Route independence is proved of the model (C09.call_sees_argument_values, '
+              'C08.operator_sees_operand_outcomes, C12.if_true_hands_on, C18.choose_hands_on).')
 ROUTE_NOTE = (' Route layer: the variable route is the reference; IF(TRUE,x,0) and CHOOSE(1,x) are taken to hand x on unchanged; '
               'routes are sampled, not enumerated.')
 
